@@ -4,6 +4,7 @@ import (
 	"fmt"
 	"math"
 	"strings"
+	"unicode/utf8"
 
 	gpw "google.golang.org/protobuf/encoding/protowire"
 )
@@ -110,25 +111,39 @@ func Walk(root *Val, visit func(p []Step, v *Val)) {
 	rec(nil, root)
 }
 
-// AbsentKey returns a key of kind k that is not in map m (simplest first).
+// AbsentKey returns a key of the map's key kind that is not in map m. Candidates are chosen ADJACENT to present keys
+// first (a proper prefix of a present string key, a present integer key +-1), so that a sloppy comparison shows.
 func AbsentKey(m *Val) *Val {
 	var cands []*Val
 	if m.Key == KString {
-		cands = []*Val{Str("absent"), Str(""), Str("k"), Str("k00")}
+		for _, k := range m.MK {
+			if len(k.B) > 0 {
+				cands = append(cands, Str(string(k.B[:len(k.B)-1])))
+			}
+		}
+		cands = append(cands, Str("absent"), Str(""), Str("k"), Str("k00"))
 	} else if m.Key == KBool {
 		cands = []*Val{Bool(false), Bool(true)}
 	} else {
+		for _, k := range m.MK {
+			cands = append(cands, Int(m.Key, int64(k.U)+1), Int(m.Key, int64(k.U)-1))
+		}
 		for _, x := range []int64{77, 0, 5, 1 << 20} {
 			cands = append(cands, Int(m.Key, x))
 		}
 	}
 	for _, c := range cands {
+		if m.Key == KString && !validUTF8(c.B) {
+			continue
+		}
 		if i, _ := m.Lookup(c); i < 0 {
 			return c
 		}
 	}
 	return nil
 }
+
+func validUTF8(b []byte) bool { return utf8.Valid(b) }
 
 // --- reference byte forms of nodes (built only from protobuf-go's protowire primitives and Schema.Encode)
 
